@@ -1065,6 +1065,10 @@ class RTCPeerConnection(AsyncIOEventEmitter):
         await asyncio.gather(*coros)
 
         # FIXME: in aiortc 2.0.0 emit RTCTrackEvent directly
+        # the connection may have been closed while we were awaiting above
+        if self.__isClosed:
+            return
+
         for event in trackEvents:
             self.emit("track", event.track)
 
